@@ -111,6 +111,17 @@ def t_ordered(acc, fn, params, order, knobs=None):
     mod, name = fn.split(':')
     f = getattr(importlib.import_module(mod), name)
     kw = {}
+    if order == 'keep':
+        # an instrumented task that drives the scheduler itself: only the presentation knobs are applied
+        saved = dict(spaces.KNOBS)
+        spaces.KNOBS.update(knobs or {})
+        try:
+            f(acc, **params)
+        finally:
+            spaces.KNOBS.clear()
+            spaces.KNOBS.update(saved)
+        _relabel(acc, fn, order, knobs)
+        return
     if order.startswith('obj'):
         kw = {'objbit': int(order[3]), 'objflip': 1 if order.endswith('f') else 0}
         core.NEWCALL = instr.S.newcall
@@ -124,12 +135,16 @@ def t_ordered(acc, fn, params, order, knobs=None):
         core.NEWCALL = None
         spaces.KNOBS.clear()
         spaces.KNOBS.update(saved)
+    _relabel(acc, fn, order, knobs)
+
+
+def _relabel(acc, fn, order, knobs):
     label = order + (' ' + ','.join('%s=%s' % kv for kv in sorted((knobs or {}).items())) if knobs else '')
     acc.c['executions_under_%s' % label.replace(' ', '_')] += acc.transitions
     for lst in acc.viols.values():
         for rec in lst:
             if isinstance(rec.get('instance'), dict):
-                if order != 'native':
+                if order not in ('native', 'keep'):
                     rec['instance']['set_order'] = order + ' order policy (instrumented)'
                 if knobs:
                     rec['instance']['presentation'] = dict(knobs)
@@ -150,5 +165,10 @@ def ordered_copies(tasks, select, orders=('canonical', 'reversed'), knobs=None):
 
 
 def knob_copies(tasks, select, knobs):
-    """Plain-mode copies of tasks under presentation knobs (CPython's own set order, instrumented worker, native=True)."""
-    return ordered_copies(tasks, select, orders=('native',), knobs=knobs)
+    """Copies of tasks under presentation knobs: plain tasks run with CPython's own set order (instrumented worker,
+    native=True); instrumented tasks keep driving the scheduler themselves."""
+    out = ordered_copies(tasks, select, orders=('native',), knobs=knobs)
+    for (mode, name, params) in tasks:
+        if mode == 'instr' and name != 'mc.props.common:t_ordered' and select(name, params):
+            out.append(('instr', 'mc.props.common:t_ordered', {'fn': name, 'params': params, 'order': 'keep', 'knobs': knobs}))
+    return out
